@@ -76,4 +76,4 @@ def all_harnesses():
 
 
 def harnesses(tier, seed):
-    return select(all_harnesses(), tier, seed, 6, budget=4200)
+    return select(all_harnesses(), tier, seed, 6)
